@@ -392,7 +392,66 @@ def r3_5(U, rep, tier):
             construct="w = 0 + eps v (dual), guards c -> c eta (Laurent series), eta -> 0:  d rot' == rot (x) (0, dt/2 v)")
 
 
+def r3_5b(U, rep, tier):
+  """R3.5 (second site): positional.integrator.project_xd at a link that did NOT move during the step.  With the new pose
+  a first-order perturbation of the previous one -- x.pos = x_prev.pos + eps u, x.rot = (1, eps w / 2) (x) x_prev.rot (dual
+  numbers) -- the projected velocity must be exactly vel = u / dt, ang = w / dt to first order: what automatic
+  differentiation returns at rest must be the derivative of the finite-rotation formula, not that of a constant branch."""
+  from braxlint import refkin
+  f = U.func('brax.positional.integrator.project_xd')
+  bad = None
+  done = 0
+  trials = 3 if tier == 'quick' else 8
+  for t in range(40):
+    if done >= trials or bad:
+      break
+    avn.field_mode(7300 + t)
+    avn.FIELD['sqrt_axiom'] = 'soft'
+    avn.FIELD['soft_hits'] = 0
+    v = [2 + (104729 * (t + 1) * (k + 5)) % 1000003 for k in range(6)]
+    for k in range(6):
+      avn.FIELD['dual']['pw%d' % k] = avn.Dual(0, v[k])
+    try:
+      I = new_interp(U.repo)
+      prev_rot = refkin.unit_quat('pr')
+      prev_pos = symarr('pp', (3,))
+      w = np.array([sym('pw%d' % k) for k in range(3)], dtype=object)
+      u = np.array([sym('pw%d' % (3 + k)) for k in range(3)], dtype=object)
+      rot = refkin.qmul(np.array([Rat.lift(1)] + [Rat.lift(x) / 2 for x in w], dtype=object), prev_rot)
+      dt = sym('dt')
+      sysd = Struct('System', {'opt': Struct('Opt', {'timestep': dt})}, home='brax.base')
+      x = Struct('Transform', {'pos': (prev_pos + u)[None], 'rot': rot[None]}, home='brax.base')
+      xp = Struct('Transform', {'pos': prev_pos[None], 'rot': prev_rot[None]}, home='brax.base')
+      out = I.apply(fn('brax.positional.integrator', 'project_xd'), [sysd, x, xp], {})
+      idt = 1 / Rat.lift(dt)
+      ok = True
+      for name, vec, src in (('ang', asarr(out.f['ang'])[0], v[0:3]), ('vel', asarr(out.f['vel'])[0], v[3:6])):
+        for k in range(3):
+          a_, b_ = avn.dual_parts(vec[k])
+          if isinstance(a_, avn.Germ) or a_ != 0 or b_ != (Rat.lift(src[k]) * idt).fv:
+            ok = False
+      if ok or not avn.FIELD['soft_hits']:
+        done += 1
+        if not ok:
+          bad = t
+    except avn.NonResidue:
+      continue
+    except avn.OutOfFragment as e:
+      rep.note('R3.5 (project_xd) undecided: %s' % e)
+      return
+    finally:
+      avn.exact_mode()
+  if done < trials and not bad:
+    raise AnalysisError('R3.5 (project_xd): fewer than %d conclusive random points in 40 tries' % trials)
+  rep.check(bad is None, 'R3.5', 'positional project_xd: derivative at a link that did not move',
+            'for a link whose pose did not change during the step, the derivative of the projected velocity with respect to the new '
+            'pose is not (u / dt, w / dt): automatic differentiation at rest returns a finite but WRONG gradient '
+            '(random-interpretation point %s)' % bad, where=f.where(),
+            construct='x = x_prev perturbed to first order (dual numbers): xd.vel == u / dt, xd.ang == w / dt')
+
+
 def run(U, rep, tier):
   r3_sites(U, rep, tier)
   r3_4(U, rep)
   r3_5(U, rep, tier)
+  r3_5b(U, rep, tier)
